@@ -109,23 +109,27 @@ Definition compress (P : point) : Z :=
   let y := fmul (pY P) zi in
   y + 2 ^ 255 * (x mod 2).
 
-(* FromBytes on the 256-bit little-endian integer e of the 32 input bytes *)
-Definition decompress (e : Z) : option point :=
-  let sign := Z.shiftr e 255 in
-  let y := fred (Z.land e m255) in          (* FeFromBytes keeps 255 bits; no y < p check anywhere *)
-  let yy := fsq y in
-  let u := fsub yy 1 in
-  let v := fadd (fmul yy cd) 1 in
+(* FromBytes on the 256-bit little-endian integer e of the 32 input bytes, in pieces:
+   the candidate root u v^3 (u v^7)^((p-5)/8), the two root checks with the sqrt(-1) fix-up, the sign *)
+Definition e22523 : Z := (fp - 5) / 8.
+Definition sqrt_candidate (u v : Z) : Z :=
   let v3 := fmul (fsq v) v in
   let x0 := fmul (fmul (fsq v3) v) u in                      (* u v^7 *)
-  let x1 := fmul (fmul (fpow x0 ((fp - 5) / 8)) v3) u in     (* u v^3 (u v^7)^((p-5)/8) *)
+  fmul (fmul (fpow x0 e22523) v3) u.                         (* u v^3 (u v^7)^((p-5)/8) *)
+Definition choose_root (x1 u v : Z) : option Z :=
   let vxx := fmul (fsq x1) v in
-  let x2 := if fsub vxx u =? 0 then Some x1
-            else if fadd vxx u =? 0 then Some (fmul x1 sqrtm1) else None in
-  match x2 with
+  if fsub vxx u =? 0 then Some x1
+  else if fadd vxx u =? 0 then Some (fmul x1 sqrtm1) else None.
+Definition fix_sign (x sign : Z) : Z := if (x mod 2) =? sign then x else fneg x.
+Definition dec_y (e : Z) : Z := fred (Z.land e m255).   (* FeFromBytes keeps 255 bits; no y < p check anywhere *)
+Definition dec_u (y : Z) : Z := fsub (fsq y) 1.
+Definition dec_v (y : Z) : Z := fadd (fmul (fsq y) cd) 1.
+
+Definition decompress (e : Z) : option point :=
+  let y := dec_y e in
+  match choose_root (sqrt_candidate (dec_u y) (dec_v y)) (dec_u y) (dec_v y) with
   | None => None
-  | Some x => let x' := if (x mod 2) =? sign then x else fneg x in
-              Some (mkpt x' y 1 (fmul x' y))
+  | Some x => let x' := fix_sign x (Z.shiftr e 255) in Some (mkpt x' y 1 (fmul x' y))
   end.
 
 Definition base_point : point :=
